@@ -19,6 +19,7 @@ import (
 	"net/http"
 	"net/http/httptest"
 	"os"
+	"runtime"
 	"runtime/pprof"
 	"sort"
 	"strconv"
@@ -538,56 +539,101 @@ func unroutedAllowed(routed int, auth []int) []int {
 	return append(append([]int(nil), auth...), http.StatusNotFound, http.StatusMethodNotAllowed)
 }
 
+type hmacJob struct {
+	idx        int
+	cfg, other *hmacCfg
+	pt         point
+	off        offset
+}
+
 func runHMAC(t *testing.T, r *runner.Run, deadline time.Time) {
 	cfgs := hmacConfigs(r.Thorough())
+	var jobs []hmacJob
 	for ci, cfg := range cfgs {
-		other := cfgs[ci^1]
-		dsl := cfg.dsl()
 		for _, pt := range cfg.points() {
 			for _, off := range offsets(cfg.Tol, r.Thorough()) {
-				if time.Now().After(deadline) {
-					r.NotExhaustive("wall budget reached during the HMAC product")
-					return
-				}
-				at := time.Unix(pt.S, 0).UTC().Add(off.D)
-				bubble(t, r, dsl, at, func(a *app.VerifApp) {
-					for _, sg := range cfg.signers() {
-						e := &env{r: r, a: a, family: "hmac", cfgName: cfg.Name, dsl: dsl, route: cfg.Route}
-						e.where = "clock=ts" + off.Label
-						if len(cfg.Refs) > 0 {
-							e.where = fmt.Sprintf("ts=%s:signer=%s:clock=ts%s", pt.Label, sg.Label, off.Label)
-						}
-						g := &hmacGen{cfg: cfg, other: other, sg: sg, S: pt.S, full: r.Thorough(), probe: pt.Probe && off.D == 0, nonce: freshNonce}
-						cases := g.all()
-						now := time.Now()
-						baseValid := hmacAccepts(cfg, cases[0], now)
-						renonce := func(c *reqCase) *reqCase {
-							c2 := *c
-							c2.Hdrs = append([]hdr(nil), c.Hdrs...)
-							for i := range c2.Hdrs {
-								if strings.HasPrefix(c2.Hdrs[i].V, "n-") && ows(c2.Hdrs[i].V) == c2.Hdrs[i].V {
-									c2.Hdrs[i].V = freshNonce()
-								}
-							}
-							return &c2
-						}
-						for _, c := range cases {
-							ref := hmacAccepts(cfg, c, now)
-							allowed := unroutedAllowed(routedTo(cfg.Route, cfg.Methods, c), []int{http.StatusUnauthorized})
-							e.run(c, ref, allowed, baseValid || c.Class == "base", renonce)
-						}
-					}
-				})
+				jobs = append(jobs, hmacJob{len(jobs), cfg, cfgs[ci^1], pt, off})
 			}
 		}
 	}
+	r.Set("hmac_bubbles", len(jobs))
+	workers := runtime.NumCPU()
+	if workers > 12 {
+		workers = 12
+	}
+	if workers < 1 {
+		workers = 1
+	}
+	var next atomic.Int64
+	var skipped atomic.Int64
+	var wg sync.WaitGroup
+	for w := 0; w < workers; w++ {
+		wg.Add(1)
+		go func(slot int) {
+			defer wg.Done()
+			for {
+				i := int(next.Add(1)) - 1
+				if i >= len(jobs) {
+					return
+				}
+				if time.Now().After(deadline) {
+					skipped.Add(1)
+					continue
+				}
+				hmacBubble(t, r, slot, jobs[i])
+			}
+		}(w + 1)
+	}
+	wg.Wait()
+	if n := skipped.Load(); n > 0 {
+		r.NotExhaustive(fmt.Sprintf("wall budget reached: %d of %d HMAC (config, signed ts, clock) bubbles not run", n, len(jobs)))
+	}
+}
+
+// hmacBubble: one application instance at one virtual instant; every signer x every mutation.
+func hmacBubble(t *testing.T, r *runner.Run, slot int, j hmacJob) {
+	cfg, pt, off := j.cfg, j.pt, j.off
+	dsl := cfg.dsl(slot)
+	at := time.Unix(pt.S, 0).UTC().Add(off.D)
+	tl := newTally()
+	bubble(t, r, slot, dsl, at, func(a *app.VerifApp) {
+		for _, sg := range cfg.signers() {
+			e := &env{r: r, a: a, family: "hmac", cfgName: cfg.Name, dsl: dsl, route: cfg.Route, tl: tl, sample: j.idx == 2}
+			e.where = "clock=ts" + off.Label
+			if len(cfg.Refs) > 0 {
+				e.where = fmt.Sprintf("ts=%s:signer=%s:clock=ts%s", pt.Label, sg.Label, off.Label)
+			}
+			g := &hmacGen{cfg: cfg, other: j.other, sg: sg, S: pt.S, full: r.Thorough(), probe: pt.Probe && off.D == 0, nonce: freshNonce}
+			// thorough: the 2-element mutation sets, once per configuration family at clock = signed ts
+			g.pairs = r.Thorough() && off.D == 0 && pt.Probe
+			cases := g.all()
+			now := time.Now()
+			baseValid := hmacAccepts(cfg, cases[0], now)
+			renonce := func(c *reqCase) *reqCase {
+				c2 := *c
+				c2.Hdrs = append([]hdr(nil), c.Hdrs...)
+				for i := range c2.Hdrs {
+					if strings.HasPrefix(c2.Hdrs[i].V, "n-") && ows(c2.Hdrs[i].V) == c2.Hdrs[i].V {
+						c2.Hdrs[i].V = freshNonce()
+					}
+				}
+				return &c2
+			}
+			for _, c := range cases {
+				ref := hmacAccepts(cfg, c, now)
+				allowed := unroutedAllowed(routedTo(cfg.Route, cfg.Methods, c), []int{http.StatusUnauthorized})
+				e.run(c, ref, allowed, baseValid || c.Class == "base", renonce)
+			}
+		}
+	})
+	tl.flush(r)
 }
 
 // ---------------------------------------------------------------- Basic
 
 func basicDSL() string {
 	var b strings.Builder
-	b.WriteString(dslHead)
+	b.WriteString(dslHead(0))
 	b.WriteString("/b {\n  queue { backend memory }\n")
 	for _, u := range basicUsers {
 		fmt.Fprintf(&b, "  auth basic %q %q\n", u.User, u.Pass)
@@ -602,8 +648,10 @@ func runBasic(t *testing.T, r *runner.Run) {
 		users[u.User] = u.Pass
 	}
 	dsl := basicDSL()
-	bubble(t, r, dsl, time.Time{}, func(a *app.VerifApp) {
-		e := &env{r: r, a: a, family: "basic", cfgName: "two-users", dsl: dsl, route: "/b", where: "-"}
+	tl := newTally()
+	defer tl.flush(r)
+	bubble(t, r, 0, dsl, time.Time{}, func(a *app.VerifApp) {
+		e := &env{r: r, a: a, family: "basic", cfgName: "two-users", dsl: dsl, route: "/b", where: "-", tl: tl, sample: true}
 		for _, c := range basicCases("/b", r.Thorough()) {
 			ref := basicAccepts(users, c)
 			e.run(c, ref, unroutedAllowed(routedTo("/b", []string{"POST"}, c), []int{http.StatusUnauthorized}), true, nil)
@@ -654,7 +702,7 @@ func (f *fwdRT) RoundTrip(req *http.Request) (*http.Response, error) {
 }
 
 func forwardDSL() string {
-	return dslHead + `
+	return dslHead(0) + `
 /f {
   queue { backend memory }
   auth forward "http://auth.internal.test/check" {
@@ -683,11 +731,13 @@ func forwardBehaviours() []fwdBehaviour {
 
 func runForward(t *testing.T, r *runner.Run) {
 	dsl := forwardDSL()
-	bubble(t, r, dsl, time.Time{}, func(a *app.VerifApp) {
+	tl := newTally()
+	defer tl.flush(r)
+	bubble(t, r, 0, dsl, time.Time{}, func(a *app.VerifApp) {
 		rt := &fwdRT{}
 		a.VerifForwardAuthClient(&http.Client{Transport: rt})
 		for _, route := range []string{"/f", "/g"} {
-			e := &env{r: r, a: a, family: "forward", cfgName: "route" + route, dsl: dsl, route: route, fwd: rt}
+			e := &env{r: r, a: a, family: "forward", cfgName: "route" + route, dsl: dsl, route: route, fwd: rt, tl: tl, sample: true}
 			first := true
 			for _, b := range forwardBehaviours() {
 				rt.b = b
@@ -705,7 +755,7 @@ func runForward(t *testing.T, r *runner.Run) {
 				calls, t0 := rt.calls, time.Now()
 				e.run(c, accept, []int{rej}, true, nil)
 				if rt.calls == calls {
-					r.Add("forward_service_not_consulted", 1)
+					tl.n["forward_service_not_consulted"]++
 				}
 				if b.Mode == "hang" {
 					r.Set("forward_hang_virtual_wait"+strings.ReplaceAll(route, "/", "_"), time.Since(t0).String())
@@ -742,7 +792,7 @@ func runConfigGuards(t *testing.T, r *runner.Run) {
 		{"forward-timeout-zero", "auth forward \"http://auth.internal.test/c\" {\n timeout 0s\n}"},
 	}
 	for _, g := range guards {
-		dsl := dslHead + "/c {\n  queue { backend memory }\n  " + strings.ReplaceAll(g.route, "\n", "\n  ") + "\n  pull { path /pull/c }\n}\n"
+		dsl := dslHead(0) + "/c {\n  queue { backend memory }\n  " + strings.ReplaceAll(g.route, "\n", "\n  ") + "\n  pull { path /pull/c }\n}\n"
 		synctest.Test(t, func(t *testing.T) {
 			a, err := app.VerifBoot(app.VerifBootOptions{Dir: scratch + "/app0", ConfigText: dsl})
 			r.Add("evaluations", 1)
@@ -756,7 +806,9 @@ func runConfigGuards(t *testing.T, r *runner.Run) {
 			defer a.Shutdown()
 			rt := &fwdRT{b: fwdBehaviour{Mode: "error-refused"}}
 			a.VerifForwardAuthClient(&http.Client{Transport: rt})
-			e := &env{r: r, a: a, family: "config", cfgName: g.name, dsl: dsl, route: "/c", where: "booted", fwd: rt}
+			tl := newTally()
+			defer tl.flush(r)
+			e := &env{r: r, a: a, family: "config", cfgName: g.name, dsl: dsl, route: "/c", where: "booted", fwd: rt, tl: tl, sample: true}
 			c := &reqCase{Class: "no-credentials", Method: "POST", Target: "/c", Body: append([]byte(nil), baseBody...), Hdrs: []hdr{{"Content-Type", "application/json"}}}
 			e.run(c, false, []int{401, 403, 503}, true, nil)
 		})
@@ -785,8 +837,10 @@ func runReplay(t *testing.T, r *runner.Run, path string) {
 	if !at.After(epoch) {
 		at = time.Time{}
 	}
-	bubble(t, r, rp.DSL, at, func(a *app.VerifApp) {
-		e := &env{r: r, a: a, family: rp.Family, cfgName: rp.Config, dsl: rp.DSL, route: rp.Route, where: rp.Where}
+	tl := newTally()
+	defer tl.flush(r)
+	bubble(t, r, 0, rp.DSL, at, func(a *app.VerifApp) {
+		e := &env{r: r, a: a, family: rp.Family, cfgName: rp.Config, dsl: rp.DSL, route: rp.Route, where: rp.Where, tl: tl}
 		if rp.FwdMode != "" {
 			e.fwd = &fwdRT{b: fwdBehaviour{rp.FwdMode, rp.FwdStatus}}
 			a.VerifForwardAuthClient(&http.Client{Transport: e.fwd})
